@@ -278,10 +278,65 @@ def pq_case(draw):
         st.tuples(st.just("push"), PAYLOAD, PRIOS).map(list),
         st.tuples(st.just("push"), PAYLOAD, st.integers(0, 2).map(float)).map(list),
         st.sampled_from([["pop"], ["get"], ["front"], ["empty"]])), min_size=1, max_size=50))
-    return {"ops": ops}
+    # payload mode: "unique" wraps every pushed payload in an unorderable dict with a unique id (the queue may only compare
+    # priorities); "plain" pushes the drawn payloads themselves, so that equal, hashable payloads are pending several times
+    return {"ops": ops, "payload_mode": draw(st.sampled_from(["unique", "plain"]))}
+
+
+def fn_pq_plain(case, ctx):
+    """equal hashable payloads pushed repeatedly: the model is a multiset of (payload, priority)"""
+    from collections import Counter
+    from mouette.utils import PriorityQueue
+    q = PriorityQueue()
+    pending = Counter()
+    norm = lambda x: tuple(x) if isinstance(x, list) else x
+    for step, op in enumerate(case["ops"]):
+        name = op[0]
+        where = f"step {step} {op}"
+        if name == "push":
+            x = norm(op[1])
+            ctx.call("pq:push", q.push, x, op[2])
+            if pending[(repr(x), op[2])] > 0 or any(k[0] == repr(x) for k, c in pending.items() if c > 0):
+                ctx.label("same-payload-pending-twice"); ctx.nontrivial()
+            pending[(repr(x), op[2])] += 1
+        elif name in ("pop", "get"):
+            if sum(pending.values()) == 0:
+                try:
+                    getattr(q, name)()
+                    ctx.fail("pq:pop-empty", f"{where}: no IndexError on empty queue")
+                except IndexError:
+                    pass
+            else:
+                ok, it = ctx.call("pq:pop", getattr(q, name))
+                if ok:
+                    mn = min(k[1] for k, c in pending.items() if c > 0)
+                    k = (repr(it.x), it.priority)
+                    if ctx.check(pending[k] > 0, "pq:pop-item", f"{where}: popped {it!r} is not pending (or handed out more often than pushed)"):
+                        pending[k] -= 1
+                        ctx.check(it.priority == mn, "pq:pop-min", f"{where}: popped priority {it.priority}, minimum pending {mn}")
+        ok, e = ctx.call("pq:empty", q.empty)
+        if ok:
+            ctx.check(bool(e) == (sum(pending.values()) == 0), "pq:empty", f"{where}: empty()={e} with {sum(pending.values())} pending")
+    last = None
+    while sum(pending.values()) > 0:
+        ok, it = ctx.call("pq:pop", q.pop)
+        if not ok:
+            return
+        k = (repr(it.x), it.priority)
+        if not ctx.check(pending[k] > 0, "pq:drain", f"drain: {it!r} not pending; still pending {dict((k2, c) for k2, c in pending.items() if c > 0)}"):
+            return
+        pending[k] -= 1
+        ctx.check(last is None or not (it.priority < last), "pq:drain-order", f"drain: {it.priority} after {last}")
+        last = it.priority
+    ok, e = ctx.call("pq:empty", q.empty)
+    if ok:
+        ctx.check(bool(e), "pq:empty", "queue not empty after draining every pushed item")
 
 
 def fn_pq(case, ctx):
+    ctx.label("payload=" + case.get("payload_mode", "unique"))
+    if case.get("payload_mode") == "plain":
+        return fn_pq_plain(case, ctx)
     from mouette.utils import PriorityQueue
     q = PriorityQueue()
     pending = {}   # uid -> (payload, priority)
